@@ -46,6 +46,20 @@ def h(a):
     return a
 
 
+def bat(*xs):
+    return sum(xs)
+
+
+bat.batchable = True
+
+
+def payloads() -> dict:
+    """Fresh Payload objects of one case; every operation of the case (and both builds) is handed the same object."""
+    from earthkit.workflows.fluent import Payload
+
+    return {"pdef1": Payload(CALL["def1"]), "pbat": Payload(bat), "pargs": Payload(g, [1])}
+
+
 _d1, _d2 = _defs()
 _s1, _s2 = _sdefs()
 CALL = {
@@ -72,6 +86,22 @@ def srcB1():
     return 6
 
 
+def srcE0():
+    return 10
+
+
+def srcE1():
+    return 11
+
+
+def srcE2():
+    return 12
+
+
+def srcE3():
+    return 13
+
+
 def srcD0():
     return 7
 
@@ -95,7 +125,8 @@ class Registry:
 
 
 class Run:
-    def __init__(self, funcs: Registry):
+    def __init__(self, funcs: Registry, shared: dict | None = None):
+        self.shared = shared or {}
         self.node_id = Registry()
         self.funcs = funcs
         self.actions: list[tuple[str, Action]] = []     # every action that exists, in creation order
@@ -128,11 +159,13 @@ class Run:
         return a
 
     # ---- the environment
-    def env(self) -> dict[str, Action]:
+    def env(self, with_e: bool = False) -> dict[str, Action]:
         A = from_source([srcA0, srcA1], dims=["x"], coords={"x": [0, 1]})
         B = from_source([srcB0, srcB1], dims=["x"], coords={"x": [5, 6]})
         D = from_source([[srcD0], [srcD1]], dims=["x", "y"], coords={"x": [0, 1], "y": [7]})
         e = {"A": A, "B": B, "D": D, "A2": A.map(CALL["par1"]), "B2": B.map(CALL["par2"])}
+        if with_e:
+            e["E"] = from_source([srcE0, srcE1, srcE2, srcE3], dims=["x"], coords={"x": [0, 1, 2, 3]})
         for k, a in e.items():
             self.add(k, a)
         return e
@@ -162,6 +195,10 @@ class Run:
             return cur.join(e[op["o"]], "z", match_coord_values=True)
         if k == "reduce":
             return cur.reduce(CALL[op["f"]], dim=d)
+        if k == "reduce_p":     # the SAME Payload object every time
+            return cur.reduce(self.shared[op["f"]], dim=d, batch_size=op["v"])
+        if k == "map_p":
+            return cur.map(self.shared[op["f"]])
         if k == "map":
             return cur.map(CALL[op["f"]])
         if k == "addc":
@@ -250,12 +287,14 @@ FUNCS = Registry()      # callable identity -> small integer, stable over the wh
 def observe(case: dict) -> dict:
     funcs = FUNCS
     builds, nodes, steps = [], [], []
+    shared = payloads()
+    with_e = any(op["o"] == "E" for op in list(case["p"]) + list(case["q"]))
     for _ in range(2):                      # two independent builds of the same case
-        run = Run(funcs)
+        run = Run(funcs, shared)
         if case["kind"] == "sources":
             names = run.sources(case)
         else:
-            e = run.env()
+            e = run.env(with_e)
             names = [run.program(case["p"], case["start"], e)]
             if case["q"]:
                 names.append(run.program(case["q"], case["start"], e))
